@@ -236,7 +236,7 @@ func runProperty(repo string, spec PropSpec, tier string, seed int, dump bool, o
 				// guard fires below HALF of it (and always at zero): a recogniser that stopped matching
 				// loses all of its sites, a consolidation does not.
 				eff := r.Floor
-				if eff > 2 {
+				if eff > 1 {
 					eff = (eff + 1) / 2
 				}
 				if len(obs) < eff {
